@@ -5,7 +5,7 @@
    for every size and every number of likelihoods; the part that needs an inverse (offset = posterior mean,
    G G^T = posterior covariance, independence of the current state) is in Props/C06_mc.v (mathcomp). *)
 From CV Require Import Base.Tac Base.LinAlg Base.Cmp Base.QcLin Model.C06_RTO
-                       Proofs.C06_Lin Proofs.C06_Forms Proofs.C06_UGLA.
+                       Proofs.C06_Lin Proofs.C06_Forms Proofs.C06_UGLA Proofs.C06_History.
 From Coq Require Import Ring QArith Qcanon.
 
 Section Ring.
@@ -136,6 +136,26 @@ Proof.
   - exact (proj1 (ugla_guard_same R r0 r1 radd rmul rsub ropp Rth c sw xk W Hxk Hloc G)).
   - exact (ugla_code_local_gaussian_guarded R r0 r1 radd rmul rsub ropp Rth c sw Lam e x W HL Hx He Hloc G).
 Qed.
+(* ---------------- samplers that outlive an in-place re-assignment of a parameter of their target ----------------
+   LinearRTO captures L1, L2, L2mu, b_tild at construction.  With the repaired reading (flag 2 from the captured L1) the
+   living sampler's flag 2 stays the transpose of its flag 1 whatever was re-assigned: it keeps drawing from the posterior
+   at construction (snapshot) -- unguarded. *)
+Theorem C06_stale_sampler_adjoint_captured :
+  forall (n : nat) (captured live : list (lik R)) (pr : prior R) (x y : list R),
+  Forall (lik_wf R r0 radd rmul n) captured -> wf_mat n (p_L pr) -> length x = n ->
+  dot r0 radd rmul (stale_M_fwd R r0 radd rmul captured pr x) y
+  = dot r0 radd rmul x (stale_M_adj R r0 radd rmul Flag2Captured n captured live pr y).
+Proof. exact (stale_adjoint_captured R r0 r1 radd rmul rsub ropp Rth). Qed.
+
+(* The code as it stands re-reads the noise sqrtprec in flag 2: the same holds GUARDED by "no noise parameter was
+   re-assigned" (prior, data values, anything else may have been). *)
+Theorem C06_stale_sampler_adjoint :
+  forall (n : nat) (captured live : list (lik R)) (pr : prior R) (x y : list R),
+  Forall (lik_wf R r0 radd rmul n) captured -> wf_mat n (p_L pr) -> length x = n ->
+  Forall2 (same_noise R) captured live ->
+  dot r0 radd rmul (stale_M_fwd R r0 radd rmul captured pr x) y
+  = dot r0 radd rmul x (stale_M_adj R r0 radd rmul Flag2Live n captured live pr y).
+Proof. exact (stale_adjoint_live_guarded R r0 r1 radd rmul rsub ropp Rth). Qed.
 End Ring.
 
 Print Assumptions C06_adjoint.
@@ -151,6 +171,8 @@ Print Assumptions C06_diag_sqrt_law.
 Print Assumptions C06_ugla_adjoint.
 Print Assumptions C06_ugla_local_gaussian_documented.
 Print Assumptions C06_ugla_local_gaussian.
+Print Assumptions C06_stale_sampler_adjoint_captured.
+Print Assumptions C06_stale_sampler_adjoint.
 
 (* Outside the guard the code does NOT draw from the documented local Gaussian (design-time defect #17, finding
    *UGLA*|location:D@loc!=0): concrete configurations over Qc with D loc <> 0, valid weight certificates, a point x
@@ -181,6 +203,34 @@ Proof.
   exact ugla_refuted_weights_holds.
 Qed.
 Print Assumptions C06_ugla_weights_refuted.
+
+(* outside that guard it fails (finding "stale-sampler:noise-reassigned-in-place"): noise sqrtprec [[1]] re-assigned to [[2]] *)
+Theorem C06_stale_sampler_adjoint_refuted :
+  exists (captured live : list (lik Qc)) (pr : prior Qc) (x y : list Qc),
+    Forall (lik_wf Qc 0%Qc Qcplus Qcmult 1) captured /\
+    qdot (stale_M_fwd Qc 0%Qc Qcplus Qcmult captured pr x) y
+    <> qdot x (stale_M_adj Qc 0%Qc Qcplus Qcmult Flag2Live 1 captured live pr y).
+Proof.
+  exists stale_wit_captured, stale_wit_live, stale_wit_prior, [1%Qc], [1%Qc; 0%Qc]. exact stale_live_refuted_holds.
+Qed.
+Print Assumptions C06_stale_sampler_adjoint_refuted.
+
+(* The adjointness hypothesis of C06_adjoint / C06_ugla_adjoint is DISCHARGED for everything the correspondence runs:
+   the cells use matrix-backed models (their function-pair variants compute A x and A^T y), so the boolean shape checks of
+   the case files are the only premise left. *)
+Theorem C06_adjoint_cells :
+  forall (n : nat) (ls : list (list (list Qc) * list (list Qc) * list Qc)) (pr : prior Qc) (x y : list Qc),
+  forallb (lik_shape_ok n) ls = true -> q_shape (length (p_L pr)) n (p_L pr) = true -> length x = n ->
+  qdot (q_M_fwd (mk_liks n ls) pr x) y = qdot x (q_M_adj n (mk_liks n ls) pr y).
+Proof. exact adjoint_cells. Qed.
+Print Assumptions C06_adjoint_cells.
+
+Theorem C06_ugla_adjoint_cells :
+  forall (tol : Q) (w : ugla_raw) (sw x y : list Qc),
+  raw_ok tol w = true -> length sw = length (w_D w) -> length x = w_n w ->
+  qdot (q_ugla_M_fwd (raw_cfg w) sw x) y = qdot x (q_ugla_M_adj (raw_cfg w) sw y).
+Proof. exact ugla_adjoint_cells. Qed.
+Print Assumptions C06_ugla_adjoint_cells.
 
 (* Tie between the case files and the theorems: the boolean law check the harness evaluates on every OBSERVED
    square-root precision implies (at tolerance 0) the hypothesis `sqrt_law` of C06_normal_equations_model /
